@@ -7,7 +7,8 @@ Request:  `sched  run  <locked 0|1>  <init>  <programs>  <schedule>`
                `T<t>` empty table · `T<t>:<k>.<v>:<k>.<v>…` table with rows            (or `-`)
   programs  := sessions separated by `|`, statements by `;`:
                `N<d>.<s>[/<cd><cs>/<lock|->]` connect (flags create_database / create_schema, lock number as seen
-               in the real trace; names are the folded names) · `T<t>.<c|->` CREATE TABLE [COMMENT] · `I<t>.<k>.<v>` INSERT · `R<t>` SELECT rows ·
+               in the real trace; names are the folded names) · `T<t>.<c|->` CREATE TABLE [COMMENT] · `I<t>.<k>.<v>` INSERT · `C<t>.<c>` COMMENT ON · `A<t>.<c>` ALTER … SET COMMENT ·
+               `O<t>.<c>` CREATE OR REPLACE TABLE … COMMENT · `Z` a statement without engine calls (SET variable) · `R<t>` SELECT rows ·
                `W<t>` table metadata (exists, comment) · `G<t>.<k1>.<v1>.<k2>.<v2>…` MERGE
   schedule  := `,`-separated session ids (one turn each), or `-`; or the real trace `<sid>:<tag>,…` (see `alignAll`)
 Reply:    `impl=<observable results per session>  final=<tables>  done=<0|1>  nserial=<n>  ok=<0|1>  finding=<key|->
@@ -43,6 +44,10 @@ def parseStmt (locked : Bool) (s : String) : Option Stmt :=
       if c == "-" then some (createTable t none) else some (createTable t (some (← c.toNat?)))
     | _ => none
   | 'I' => match nats tl with | some [t, k, v] => some (insertStmt t k v) | _ => none
+  | 'C' => match nats tl with | some [t, c] => some (commentStmt t c) | _ => none
+  | 'A' => match nats tl with | some [t, c] => some (commentStmt t c) | _ => none
+  | 'O' => match nats tl with | some [t, c] => some (replaceTable t c) | _ => none
+  | 'Z' => some nopStmt
   | 'R' => tl.toNat?.map selectStmt
   | 'W' => tl.toNat?.map showStmt
   | 'G' => match nats tl with | some (t :: r) => some (mergeStmt t (pairs r)) | _ => none
@@ -133,6 +138,7 @@ def opTag : Key → Op → String
   | .db _, .setInfo => "wi"
   | .schema _ _, .create => "ws"
   | .tbl _, .create => "wt"
+  | .tbl _, .replace => "wt"
   | _, .setCmt _ => "wc"
   | _, .insert _ _ => "wn"
   | _, .mergeIns _ => "wn"
